@@ -1,27 +1,38 @@
 #!/usr/bin/env python3
-"""Replay of a recorded violation: prints the replay file (obligation, solver output) and, when the file carries a
-Go test (section '--- go test ---'), runs it against /repo through `go test -overlay` (nothing is written to /repo)."""
+"""Replay of a recorded violation. If the replay file carries a Go test (section '--- go test (<package dir>) ---')
+it is run against /repo's current tree through `go test -overlay` (nothing is written to /repo): exit 1 with a
+VIOLATION line if the failure reproduces, exit 0 if the current tree passes. Otherwise the file (obligation, solver
+answer, model, SMT query) is printed and the exit status is 1: there is no executable input to replay."""
 import json, os, subprocess, sys, tempfile, shutil
 prop, path = sys.argv[1], sys.argv[2]
 text = open(path).read()
-print(text[:4000])
 marker = "--- go test ("
 if marker not in text:
+    print(text[:6000])
     print("no executable replay in this file (the verifier gave no input that could be rendered); re-run the SMT query shown above")
     sys.exit(1)
-head, rest = text.split(marker, 1)
+print(text.split("--- solver model ---")[0])
+rest = text.split(marker, 1)[1]
 pkgdir, rest = rest.split(") ---\n", 1)
 src = rest.split("\n--- end go test ---", 1)[0]
+helper = ""
+if "--- go helper ---\n" in text:
+    helper = text.split("--- go helper ---\n", 1)[1].split("\n--- end go helper ---", 1)[0]
 tmp = tempfile.mkdtemp(prefix="govc-replay-")
 try:
-    f = os.path.join(tmp, "verif_replay_test.go"); open(f, "w").write(src)
-    ov = os.path.join(tmp, "ov.json"); json.dump({"Replace": {os.path.join(pkgdir, "verif_replay_test.go"): f}}, open(ov, "w"))
+    repl = {}
+    f = os.path.join(tmp, "verif_replay_test.go"); open(f, "w").write(src); repl[os.path.join(pkgdir, "verif_replay_test.go")] = f
+    if helper:
+        h = os.path.join(tmp, "verif_eval_test.go"); open(h, "w").write(helper); repl[os.path.join(pkgdir, "verif_eval_test.go")] = h
+    ov = os.path.join(tmp, "ov.json"); json.dump({"Replace": repl}, open(ov, "w"))
     env = dict(os.environ, GOFLAGS="-mod=mod", GOPROXY="off", GOSUMDB="off", GOTOOLCHAIN="local")
-    r = subprocess.run(["go", "test", "-overlay", ov, "-vet=off", "-timeout", "60s", "-count=1", "-run", "^TestVerifReplay$", "."], cwd=pkgdir, env=env)
-    if r.returncode != 0:
+    r = subprocess.run(["go", "test", "-overlay", ov, "-vet=off", "-timeout", "60s", "-count=1", "-v", "-run", "^TestVerifReplay$", "."],
+                       cwd=pkgdir, env=env, capture_output=True, text=True)
+    print(r.stdout[-3000:], r.stderr[-1000:])
+    if "CONFIRMED:" in r.stdout:
         print(f"VIOLATION property={prop} replay={path}")
         sys.exit(1)
-    print("replay passes on the current tree")
+    print("the recorded input no longer fails on the current tree")
     sys.exit(0)
 finally:
     shutil.rmtree(tmp, ignore_errors=True)
